@@ -165,7 +165,7 @@ func ruleIndexGuards(c *Ctx, rule string) {
 			fns = append(fns, fn)
 		}
 	}
-	r.Floor(rule, "functions of the unsentinelled parsers", len(fns), 10)
+	r.Floor(rule, "functions of the unsentinelled parsers", len(fns), 6)
 	// preconditions: function -> (collection param index, index param index) it indexes first thing without a guard
 	type pre struct{ collParam, idxParam int }
 	pres := map[*ssa.Function]pre{}
@@ -222,7 +222,7 @@ func ruleIndexGuards(c *Ctx, rule string) {
 			ob.Bad(fmt.Sprintf("no dominating test of %s against len(%s): input that ends here indexes past the end (index out of range panic inside Compile)", idxName(n), valName(s.coll)))
 		}
 	}
-	r.Floor(rule, "index sites in the unsentinelled parsers", nsites, 30)
+	r.Floor(rule, "index sites in the unsentinelled parsers", nsites, 20)
 	// call-site obligations for preconditions (propagated through entry-block pass-through of the bare parameters)
 	var pfs []*ssa.Function
 	for f := range pres {
